@@ -10,8 +10,10 @@
    correspondence).  The character set of `quote`, the entry point separator, the list of passes (keyword, slice
    offset, the five flags) and the final unescape come from Gen/CmdReplTables.v, regenerated from the source.
 
-   World: one current target (sources, unnamed tools, deps) and the targets it may name; no subrepos, no
-   require/provide, no data/runtime/exported/internal dependencies, no named source or tool groups, no filegroups, no
+   World: one current target (sources, unnamed tools, deps) and the targets it may name, in the main repository or
+   in subrepos (a label is package, name AND subrepo; the current target itself is in the main repository, so the
+   implicit-subrepo retry of dependenciesFor never fires); the order of dependency lookups of replaceSequenceLabel
+   comes from Gen/CmdReplTables.v (dep_lookup).  No require/provide, no data/runtime/exported/internal dependencies, no named source or tool groups, no filegroups, no
    remote execution, no Bazel compatibility, no $(worker).  filepath.Join is modelled on clean components (it is
    `a/b`, dropping empty components; the path cleaning of ., .. and // is not modelled).  $(hash) is modelled with
    the hash text as a function of the world.  log.Fatalf (unknown entry point) is the result RFatal.
@@ -34,8 +36,12 @@ Definition bind {A B} (r : res A) (f : A -> res B) : res B :=
 
 (* ---- the world ------------------------------------------------------------------------------------------------ *)
 
-Definition lbl := (str * str)%type.            (* package name, target name; the subrepo is always "" *)
-Definition lbl_eqb (a b : lbl) : bool := str_eqb (fst a) (fst b) && str_eqb (snd a) (snd b).
+Definition lbl := (str * str * str)%type.      (* package name, target name, subrepo ("" = the main repository) *)
+Definition lb_pkg (l : lbl) : str := fst (fst l).
+Definition lb_name (l : lbl) : str := snd (fst l).
+Definition lb_sub (l : lbl) : str := snd l.
+Definition lbl_eqb (a b : lbl) : bool :=
+  str_eqb (lb_pkg a) (lb_pkg b) && str_eqb (lb_name a) (lb_name b) && str_eqb (lb_sub a) (lb_sub b).
 
 Record tgt := T {
   t_lbl : lbl;
@@ -60,7 +66,7 @@ Record world := W {
   w_hash : lbl -> str;                (* base64 of TargetHasher.OutputHash(dep) *)
   w_fhash : str -> str }.             (* base64 of PathHasher.MustHash(path) *)
 
-Definition w_pkg (w : world) : str := fst (t_lbl (w_self w)).
+Definition w_pkg (w : world) : str := lb_pkg (t_lbl (w_self w)).
 
 Definition input_label (i : input) : option lbl :=
   match i with ILabel l => Some l | IAnnot l _ => Some l | _ => None end.
@@ -92,7 +98,9 @@ Definition join (a b : str) : str := if is_nil a then b else if is_nil b then a 
 
 Definition gen_dir : str := s "plz-out/gen".
 Definition bin_dir : str := s "plz-out/bin".
-Definition out_dir (d : tgt) : str := join (if t_binary d then bin_dir else gen_dir) (fst (t_lbl d)).
+(* OutDir(): filepath.Join(GenDir | BinDir, Label.Subrepo, Label.PackageName) *)
+Definition out_dir (d : tgt) : str :=
+  join (if t_binary d then bin_dir else gen_dir) (join (lb_sub (t_lbl d)) (lb_pkg (t_lbl d))).
 Definition handle_dir (outdir out : str) (dir : bool) : str := if dir then outdir else join outdir out.
 
 (* ---- quote ---------------------------------------------------------------------------------------------------- *)
@@ -115,7 +123,7 @@ Definition flags := (bool * bool * bool * bool * bool)%type.    (* runnable, mul
 Definition file_destination (is_self test : bool) (d : tgt) (out : str) (dir outp : bool) : piece :=
   if outp then mk_piece dir InRepo (handle_dir (out_dir d) out dir)
   else if test && is_self then PFile InTmp (s "./" ++ out)
-  else mk_piece dir InTmp (handle_dir (fst (t_lbl d)) out dir).
+  else mk_piece dir InTmp (handle_dir (lb_pkg (t_lbl d)) out dir).
 
 Definition one_out (w : world) (test is_self tool : bool) (d : tgt) (dir outp : bool) (out : str) : piece :=
   if tool then mk_piece dir InAbs (join (w_root w) (handle_dir (out_dir d) out dir))    (* !WillRunRemotely *)
@@ -142,18 +150,39 @@ Definition check_and_replace (w : world) (test : bool) (fl : flags) (is_self too
        | Some out => let p := file_destination is_self test d out dir outp in ROk (piece_text p, [p])
        end.
 
+(* one dependency lookup of replaceSequenceLabel: the key handed to target.DependenciesFor *)
+Definition lookup_key (st : lookup_step) (k : lbl) : option lbl :=
+  match st with
+  | LookupExact => Some k
+  | LookupStripSubrepo => if is_nil (lb_sub k) then None else Some (lb_pkg k, lb_name k, [])
+  end.
+
+(* deps := DependenciesFor(label); [if len(deps) == 0 && ... { retry }]*: the first key that is a dependency *)
+Fixpoint find_dep (w : world) (steps : list lookup_step) (k : lbl) : option lbl :=
+  match steps with
+  | [] => None
+  | st :: r =>
+      match lookup_key st k with
+      | Some k' => if declared w k' then Some k' else find_dep w r k
+      | None => find_dep w r k
+      end
+  end.
+
+Definition label_key (l : C20.label) : lbl := (C20.l_pkg l, C20.l_name l, C20.l_sub l).
+
 Definition replace_label (w : world) (test : bool) (fl : flags) (l : C20.label) (ep inp : str)
            (all_outputs : bool) : res (str * list piece) :=
-  if is_nil (C20.l_sub l) then
-    let k := (C20.l_pkg l, C20.l_name l) in
-    if lbl_eqb k (t_lbl (w_self w)) then check_and_replace w test fl true false all_outputs (w_self w) ep inp
-    else if declared w k then
-      match lookup_tgt k (w_graph w) with
-      | Some d => check_and_replace w test fl false (is_tool w k) all_outputs d ep inp
-      | None => RErr
-      end
-    else RErr
-  else RErr.
+  let k := label_key l in
+  if lbl_eqb k (t_lbl (w_self w)) then check_and_replace w test fl true false all_outputs (w_self w) ep inp
+  else match find_dep w dep_lookup k with
+       | Some k' =>
+           match lookup_tgt k' (w_graph w) with
+           (* a retry assigns label.Subrepo, so IsTool(label) is asked about the key that was found *)
+           | Some d => check_and_replace w test fl false (is_tool w k') all_outputs d ep inp
+           | None => RErr
+           end
+       | None => RErr
+       end.
 
 Definition looks_like_label (x : str) : bool :=
   has_prefix (s "//") x || has_prefix (s ":") x
@@ -250,12 +279,12 @@ Definition expand_cmd (w : world) (test : bool) (cmd : str) : res str :=
 
 (* ReplaceTestSequences (the $(worker form is not modelled) *)
 Definition expand_test_cmd (w : world) (cmd : str) : res str :=
-  if is_nil cmd then expand_cmd w true (s "$(exe :" ++ snd (t_lbl (w_self w)) ++ s ")")
+  if is_nil cmd then expand_cmd w true (s "$(exe :" ++ lb_name (t_lbl (w_self w)) ++ s ")")
   else expand_cmd w true cmd.
 
 (* ---- the build directory (IterSources with includeTools = false) ------------------------------------------------ *)
 
-Definition prefixed (d : tgt) (outs : list str) : list str := map (join (fst (t_lbl d))) outs.
+Definition prefixed (d : tgt) (outs : list str) : list str := map (join (lb_pkg (t_lbl d))) outs.
 
 Definition all_outs_of (w : world) (l : lbl) : list str :=
   match lookup_tgt l (w_graph w) with Some d => prefixed d (t_outs d) | None => [] end.
@@ -302,7 +331,8 @@ Definition present (w : world) (p : piece) : bool :=
 Definition wf_tgt (d : tgt) : bool :=
   forallb (fun o => negb (is_nil o)) (t_outs d)       (* BuildTarget.insert refuses "" *)
   && forallb (fun e => existsb (fun o => covers o (snd e)) (t_outs d)) (t_eps d).
-Definition wf_world (w : world) : bool := forallb wf_tgt (w_graph w).
+(* the current target is in the main repository (labels of its command are parsed with subrepo "") *)
+Definition wf_world (w : world) : bool := is_nil (lb_sub (t_lbl (w_self w))) && forallb wf_tgt (w_graph w).
 
 (* ---- a conservative shell word splitter ------------------------------------------------------------------------- *)
 
@@ -371,9 +401,8 @@ Definition defect_class (w : world) (fl : flags) (inp : str) : option defect :=
     let (lbl_s, ep) := split_entry_point inp in
     match C20.try_parse lbl_s (w_pkg w) [] with
     | C20.Parsed l =>
-        let k := (C20.l_pkg l, C20.l_name l) in
-        if negb (is_nil (C20.l_sub l)) then None
-        else if lbl_eqb k (t_lbl (w_self w)) then Some DSelf
+        let k := label_key l in
+        if lbl_eqb k (t_lbl (w_self w)) then Some DSelf
         else match lookup_tgt k (w_graph w) with
              | Some d =>
                  let tool := is_tool w k in
@@ -381,11 +410,11 @@ Definition defect_class (w : world) (fl : flags) (inp : str) : option defect :=
                  else if negb (is_nil ep) then
                    if tool then Some DToolEntryPoint
                    else if negb (placed_whole w k d) then Some DNamedOnly
-                   else if dir && is_nil (fst (t_lbl d)) then Some DRootDir
+                   else if dir && is_nil (lb_pkg (t_lbl d)) then Some DRootDir
                    else None
                  else if tool then None
                  else if negb (placed_whole w k d) then Some DNamedOnly
-                 else if dir && is_nil (fst (t_lbl d)) && negb (is_nil (t_outs d)) then Some DRootDir
+                 else if dir && is_nil (lb_pkg (t_lbl d)) && negb (is_nil (t_outs d)) then Some DRootDir
                  else None
              | None => None
              end
